@@ -1,5 +1,5 @@
 """helper of the C14 check: wraps the interface texts given in a JSON file, in order, in ONE fresh process (a new
-PybindWrapper and a new MatlabWrapper per text) and prints {index: {"pybind": ..., "matlab": ...}} for the indices asked."""
+PybindWrapper and a new MatlabWrapper per text, each with its own ignore list) and prints {index: {"pybind": ..., "matlab": ...}} for the indices asked."""
 import json
 import os
 import sys
@@ -10,8 +10,9 @@ from common import impl_pybind, impl_matlab  # noqa: E402
 
 job = json.load(open(sys.argv[1], encoding="utf-8"))
 out = {}
+ignores = job.get("ignores") or [[] for _ in job["texts"]]
 for i, text in enumerate(job["texts"]):
-    r = dict(pybind=impl_pybind(text, streams.TPL_MIN, "m", [''], True, [], None), matlab=impl_matlab([text], "m", [], True))
+    r = dict(pybind=impl_pybind(text, streams.TPL_MIN, "m", [''], True, ignores[i], None), matlab=impl_matlab([text], "m", ignores[i], True))
     if i in job["report"]:
         out[str(i)] = r
 json.dump(out, sys.stdout)
